@@ -9,8 +9,10 @@ import (
 	"flag"
 	"fmt"
 	"hash/fnv"
+	mrand "math/rand"
 	"os"
 	"path/filepath"
+	"regexp"
 	"sort"
 	"strconv"
 	"strings"
@@ -259,6 +261,15 @@ func (c *Case) Violation(sig string, format string, args ...any) {
 	panic(abortCase{})
 }
 
+// IsKnown reports whether a signature is a listed known finding of this property.
+func (c *Case) IsKnown(sig string) bool { return c.run.isKnown(sig) }
+
+// NoteKnown records an occurrence of a listed known finding without abandoning the case.
+func (c *Case) NoteKnown(sig, msg string) {
+	c.knownHits = append(c.knownHits, sig)
+	c.run.noteKnown(sig, msg)
+}
+
 // Skip abandons the case as out of domain (counted as class "skipped").
 func (c *Case) Skip(why string) {
 	c.Class("skipped:" + why)
@@ -269,12 +280,16 @@ func (c *Case) Skip(why string) {
 // Run
 
 type knownFinding struct {
-	Property    string `json:"property"`
-	Signature   string `json:"signature"`
-	Status      string `json:"status"`
-	Commit      string `json:"commit,omitempty"`
-	Description string `json:"description"`
-	Replay      string `json:"replay,omitempty"`
+	Property  string `json:"property"`
+	Signature string `json:"signature"`
+	// SignatureRegex, if set, identifies the finding by a pattern over the violation signature (used where one
+	// root cause shows up at a family of call-site pairs, e.g. data races); Signature is then only its name.
+	SignatureRegex string `json:"signature_regex,omitempty"`
+	re             *regexp.Regexp
+	Status         string `json:"status"`
+	Commit         string `json:"commit,omitempty"`
+	Description    string `json:"description"`
+	Replay         string `json:"replay,omitempty"`
 }
 
 type failure struct {
@@ -364,6 +379,9 @@ func NewRun(t *testing.T, prop string) *Run {
 		}
 		for _, k := range kf.Findings {
 			if k.Property == prop && k.Status == "known" {
+				if k.SignatureRegex != "" {
+					k.re = regexp.MustCompile(k.SignatureRegex)
+				}
 				r.known[k.Signature] = k
 			}
 		}
@@ -387,14 +405,25 @@ func (r *Run) N(quick, thorough int) int {
 	return n
 }
 
-func (r *Run) isKnown(sig string) bool {
-	_, ok := r.known[sig]
-	return ok
+// knownName maps a violation signature to the name of the listed known finding it belongs to ("" if none).
+func (r *Run) knownName(sig string) string {
+	if _, ok := r.known[sig]; ok {
+		return sig
+	}
+	for name, k := range r.known {
+		if k.re != nil && k.re.MatchString(sig) {
+			return name
+		}
+	}
+	return ""
 }
+
+func (r *Run) isKnown(sig string) bool { return r.knownName(sig) != "" }
 
 func (r *Run) noteKnown(sig, msg string) {
 	r.mu.Lock()
 	defer r.mu.Unlock()
+	sig = r.knownName(sig)
 	r.knownSeen[sig]++
 	if _, ok := r.knownMsg[sig]; !ok {
 		r.knownMsg[sig] = msg
@@ -623,6 +652,54 @@ func (r *Run) Exhaustive(part string, limit int, prop func(*Case)) bool {
 	return true
 }
 
+// randSrc draws from a seeded PRNG without shrinking (for schedule-dependent checks, where shrinking a
+// nondeterministic failure is meaningless); draws are recorded so that the case can be replayed.
+type randSrc struct {
+	rng *mrand.Rand
+	rec *[]Draw
+}
+
+func (r randSrc) Int(label string, lo, hi int) int {
+	if hi < lo {
+		hi = lo
+	}
+	v := lo + r.rng.Intn(hi-lo+1)
+	*r.rec = append(*r.rec, Draw{label, v})
+	return v
+}
+
+func (r randSrc) Str(label, alphabet string, minLen, maxLen int) string {
+	runes := []rune(alphabet)
+	n := minLen + r.rng.Intn(maxLen-minLen+1)
+	b := make([]rune, n)
+	for i := range b {
+		b[i] = runes[r.rng.Intn(len(runes))]
+	}
+	*r.rec = append(*r.rec, Draw{label, string(b)})
+	return string(b)
+}
+
+// Loop runs prop on n cases drawn from a PRNG seeded from VERIF_SEED, without shrinking.
+func (r *Run) Loop(part string, n int, prop func(*Case)) bool {
+	if r.Replay != "" || r.failCount > 0 {
+		return true
+	}
+	base := int64(r.subSeed(part) >> 1)
+	for i := 0; i < n; i++ {
+		rng := mrand.New(mrand.NewSource(base + int64(i)))
+		c := r.newCase(part, func(rec *[]Draw) Src { return randSrc{rng, rec} }, nil)
+		runCase(c, prop)
+		if c.failed {
+			r.mu.Lock()
+			r.failCount++
+			r.mu.Unlock()
+			return false
+		}
+		r.finishCase(c)
+	}
+	return true
+}
+
 // Direct runs prop once with a fixed draw list (regression inputs, known-finding probes).
 func (r *Run) Direct(part string, draws []Draw, prop func(*Case)) (c *Case) {
 	rs := &replaySrc{draws: draws}
@@ -768,6 +845,7 @@ func (r *Run) Finish() {
 		b, _ := json.MarshalIndent(sh, "", " ")
 		_ = os.WriteFile(filepath.Join(r.OutDir, fmt.Sprintf("shard-%d.json", r.Shard)), b, 0o644)
 	}
+	fmt.Printf("SHARD-DONE property=%s shard=%d violations=%d\n", r.Prop, r.Shard, violations)
 	if violations > 0 {
 		r.T.Fail()
 	}
